@@ -355,6 +355,17 @@ void execute_rounds(const Plan& plan) {
       }
       else sim::count("c16.probe.round_abandoned");
       if (s.detach_after && e.is_initialized()) { Error err = code.detach(&e); SIM_CHECK(err == Error::kOk, "c16:detach-failed", "detach failed with %u", unsigned(err)); SIM_CHECK(!e.is_initialized(), "c16:detach", "emitter still attached after detach()"); }
+      if (s.dangling && !e.is_initialized()) {
+        // ... and the user even tries to emit while the emitter is detached: the call is refused, and what it was given
+        // (options, extra register, inline comment) must not wait for the first instruction of the next program
+        static const InstOptions kOpts[] = {InstOptions::kX86_Lock, InstOptions::kX86_Rep, InstOptions::kLongForm, InstOptions::kX86_ModMR, InstOptions::kX86_Vex3, InstOptions::kTaken, InstOptions::kShortForm};
+        if (s.dangling & 1) e.set_inst_options(kOpts[(s.prog_seed >> 7) % 7]);
+        if (s.dangling & 2) e.set_extra_reg(s.target == gen::Target::kA64 ? Reg(a64::x(3)) : Reg(x86::k(uint32_t(1 + (s.prog_seed >> 11) % 7))));
+        if (s.dangling & 4) e.set_inline_comment("comment of a refused call");
+        Error de = s.target == gen::Target::kA64 ? e.emit(a64::Inst::kIdNop) : e.emit(x86::Inst::kIdNop);
+        SIM_CHECK(de != Error::kOk, "c16:detached-emit-accepted", "an emitter that is not attached accepted an instruction");
+        sim::count("c16.probe.emit_while_detached");
+      }
       sim::end_op();
     }
     if (rounds_compared) sim::mark_nontrivial();
